@@ -16,7 +16,7 @@ def _alg(name, poly, lo, hi):
         v = z3.Real(name)
         ENGINE.uf[key] = v
         ENGINE.assume(z3.And(poly(v) == 0, v > RV(Fraction(lo)), v < RV(Fraction(hi))),
-                      "algebraic constant %s (exact, isolating interval)" % name)
+                      "algebraic constant %s (exact, isolating interval)" % name, fact=True)
     return ENGINE.uf[key]
 
 
